@@ -40,80 +40,7 @@ def model(pattern):
     return deco
 
 
-# ------------------------------------------------------------------ plumbing stubs (tokio channel / task, stream adaptors)
-
-class ChanV:
-    def __init__(self):
-        self.items = []
-
-    def clone(self):
-        return self
-
-
-@model(r"^tokio::sync::mpsc::channel::<")
-def m_channel(engine, ctx, args, callee, frame):
-    ch = ChanV()
-    ctx.h16.setdefault("chans", []).append(ch)
-    return Agg("tuple", "tuple", [Cell(ch), Cell(ch)])
-
-
-@model(r"^tokio::sync::mpsc::Sender::<.*>::send$")
-def m_send(engine, ctx, args, callee, frame):
-    ch = deref(args[0])
-    v = args[1]
-
-    def run():
-        ch.items.append(v)
-        return ok(unit())
-    return future(callee, run)
-
-
-@model(r"^<tokio::sync::mpsc::Sender<.*> as Clone>::clone$")
-def m_sender_clone(engine, ctx, args, callee, frame):
-    return deref(args[0])
-
-
-@model(r"^tokio::(task::)?spawn::<")
-def m_spawn(engine, ctx, args, callee, frame):
-    """the spawned task runs to completion before the caller continues (no concurrency is modelled)"""
-    r = run_future(engine, ctx, args[0])
-    ctx.h16.setdefault("tasks", []).append(r)
-    return Opaque("JoinHandle")
-
-
-@model(r"^(futures::executor::)?block_on::<")
-def m_block_on(engine, ctx, args, callee, frame):
-    return run_future(engine, ctx, args[0])
-
-
-@model(r"ReceiverStream::<.*>::new$")
-def m_receiver_stream(engine, ctx, args, callee, frame):
-    ch = deref(args[0])
-    return M.StreamV(ch.items)
-
-
-@model(r"StreamExt>::boxed(::<.*>)?$|StreamExt::boxed::<")
-def m_boxed(engine, ctx, args, callee, frame):
-    return pin_box(M.find_stream(args[0]))
-
-
-@model(r"TryStreamExt>::try_filter_map(::<.*>)?$|TryStreamExt::try_filter_map::<")
-def m_try_filter_map(engine, ctx, args, callee, frame):
-    """evaluated eagerly: Err items pass through, Ok(v) goes through the closure's future"""
-    st = M.find_stream(args[0])
-    clo = args[1]
-    out = []
-    for it in st.items[st.idx:]:
-        if it.variant == "Err":
-            out.append(it)
-            continue
-        fut = engine.call_closure(Ref(Cell(clo)), [it.fields[0].v])
-        r = run_future(engine, ctx, fut)
-        if r.variant == "Err":
-            out.append(r)
-        elif r.fields[0].v.variant == "Some":
-            out.append(ok(r.fields[0].v.fields[0].v))
-    return M.StreamV(out)
+from mirsym import plumbing as PL      # noqa: F401,E402  (tokio channel / spawn / stream stubs)
 
 
 # ------------------------------------------------------------------ storage stubs
@@ -279,7 +206,7 @@ def run_shape(prog, kind, shape):
             # sha application the code made on this path
             x["h"] = MK.sha_bv(ctx, x["content"])
         items = M.find_stream(st).items
-        return (items, list(ctx.h16.get("tasks", [])))
+        return (items, list(ctx.__dict__.get("spawned_tasks", [])))
 
     def decide(res, cond, what, key):
         out["obligations"] += 1
